@@ -90,6 +90,10 @@ pub fn entry() -> i32 {
             }
         };
         let case = v.get("replay").cloned().unwrap_or(v.clone());
+        if case.get("kind").and_then(|k| k.as_str()) == Some("stuck") {
+            println!("REPLAY property={} build={} violated=true a call did not terminate; re-run `./check {}` to reproduce (the stuck case: {})", prop, kit::build_name(), prop, case["case"]);
+            return 3;
+        }
         // determinism self-test: the same case twice must give identical observations
         let a = props::replay(&prop, &ctx, &case);
         let b = props::replay(&prop, &ctx, &case);
@@ -113,6 +117,9 @@ pub fn entry() -> i32 {
         };
     }
     let t0 = Instant::now();
+    // watchdog: a single call into swiftness that does not return within the cap ends the run
+    // with a non-termination violation (C17 isolates its cases in worker processes itself)
+    kit::watch::start(prop.clone(), kit::build_name(), tier.name(), seed, out.clone(), if tier == Tier::Quick { 90 } else { 300 });
     let rep: Report = match props::run(&prop, &ctx) {
         Some(r) => r,
         None => {
